@@ -18,6 +18,7 @@ const (
 
 func init() {
 	register("C13", func(c *core.Ctx, tier string) {
+		lockBalance(c, "C13.12", "webtransport") // writeErrMu / PreparedMessage.mu: balanced on every path of the write side
 		connWriteEffects(c, "C13.9")
 		errPolarity(c, "C13.8", "webtransport")
 		c13NoPartialFrames(c)
@@ -758,6 +759,56 @@ func c13Prepared(c *core.Ctx) {
 			})
 		}
 		c.Check(R, "webtransport.(*PreparedMessage).frame/scratch-Conn.isServer-from-key", fr.Pos(), fromKey, "the connection the cached frame is written on has the server flag of the key (single-frame path of WriteMessage)")
+		// what was written is what is cached and returned (mutation audit round 4): frame.data = the scratch connection's
+		// buffer, after WriteMessage, inside the Once; the frame the Once belongs to exists on the cache-miss edge
+		recorded := false
+		for _, x := range fr.AllUnits() {
+			wm := x.CallsTo("webtransport.(*Conn).WriteMessage")
+			for _, a := range fieldAssigns(x, "preparedFrame.data") {
+				ce, isC := ast.Unparen(a.Rhs).(*ast.CallExpr)
+				if !isC || calleeNameOf(ce) != "Bytes" || len(wm) != 1 || !x.Graph().Dominates(wm[0].Loc, a.Loc) {
+					continue
+				}
+				if se, isS := ce.Fun.(*ast.SelectorExpr); isS && fieldOf(x.Info(), se.X) == "prepareConn.buf" {
+					recorded = true
+				}
+			}
+		}
+		c.Check(R, "webtransport.(*PreparedMessage).frame/cached-bytes=the-scratch-connection's-buffer-after-WriteMessage", fr.Pos(), recorded, "frame.data = nc.buf.Bytes() follows the WriteMessage on the scratch connection")
+		g := fr.Graph()
+		missing := func(x *core.Unit, br core.Branch) int {
+			// the ok of `frame, ok := pm.frames[key]`
+			e, sign := ast.Unparen(br.Cond), 1
+			if br.IsCase {
+				return 0
+			}
+			d, k := x.SingleDef(e)
+			te, isT := d.(*core.TupleElem)
+			if !k || !isT || te.Index != 1 {
+				return 0
+			}
+			if ix, isIx := ast.Unparen(te.X).(*ast.IndexExpr); isIx && fieldOf(x.Info(), ix.X) == "PreparedMessage.frames" {
+				return -sign // "missing" holds on the false edge of ok
+			}
+			return 0
+		}
+		alloc := false
+		for _, a := range assignsIn(fr, func(l ast.Expr) bool { return isLocal(fr.Info(), l, "frame") }) {
+			if ue, isU := ast.Unparen(a.Rhs).(*ast.UnaryExpr); isU && ue.Op == token.AND && g.GuardedBy(a.Loc, missing) {
+				alloc = true
+			}
+		}
+		c.Check(R, "webtransport.(*PreparedMessage).frame/frame-allocated-on-the-cache-miss-edge", fr.Pos(), alloc, "frame = &preparedFrame{} exactly where the map had none: on the other edge the Once is reached through a nil frame")
+		retOK := false
+		for _, r := range returnsIn(fr) {
+			if len(r.Stmt.Results) == 3 && fieldOf(fr.Info(), r.Stmt.Results[0]) == "PreparedMessage.messageType" && fieldOf(fr.Info(), r.Stmt.Results[1]) == "preparedFrame.data" {
+				retOK = true
+			} else {
+				retOK = false
+				break
+			}
+		}
+		c.Check(R, "webtransport.(*PreparedMessage).frame/returns(messageType,frame.data,err)", fr.Pos(), retOK, "the cached bytes and the message's own type are what the caller writes")
 	}
 	wp := c.Fn(R, "webtransport.(*Conn).WritePreparedMessage")
 	if wp != nil {
